@@ -1,7 +1,7 @@
 (* noerr + typed (syntactic, Typing.v) imply `agree` (the semantic hypothesis of C01_pattern). *)
 Require Import KV.Sparql.Base KV.Sparql.Syntax KV.Sparql.MuProofs KV.Sparql.JoinProofs KV.Sparql.Algebra KV.Sparql.Engine
         KV.Sparql.Lowering KV.Sparql.PlanEquiv KV.Sparql.Sem KV.Sparql.Bridge KV.Sparql.Classes KV.Sparql.Typing
-        KV.Sparql.ScanProofs KV.Sparql.BgpProofs KV.Sparql.SemProofs KV.Sparql.ExecLemmas KV.Sparql.BridgeProofs KV.Sparql.IdemProofs.
+        KV.Sparql.ScanProofs KV.Sparql.BgpProofs KV.Sparql.SemProofs KV.Sparql.ExecLemmas KV.Sparql.BridgeProofs KV.Sparql.ModifierProofs KV.Sparql.AggProofs KV.Sparql.IdemProofs.
 Require Import Lia Permutation.
 
 Lemma subset_v_in : forall a b, subset_v a b = true <-> forall x, In x a -> In x b.
@@ -298,7 +298,56 @@ Proof.
     + intros x t Hx L. rewrite forallb_forall in IB. specialize (IB row Hr). rewrite forallb_forall in IB. specialize (IB x Hx).
       rewrite L in IB. exact IB.
   - cbn [fragB] in FR. apply andb_true_iff in FR. destruct FR as [FR0 FRw]. apply andb_true_iff in FR0. destruct FR0 as [_ Fs].
-    cbn [int_bound] in IB. apply andb_true_iff in IB. destruct IB as [_ IB].
+    cbn [int_bound] in IB. apply andb_true_iff in IB. destruct IB as [IBa IB].
+    destruct (simple_sel pr gb lim) eqn:Fs1.
+    2: { (* aggregation in the legal shape: keys come from a row of the pattern, aliases are outside X *)
+      cbn [orb] in Fs. unfold agg_sel in Fs. apply andb_true_iff in Fs. destruct Fs as [Sh Fl]. destruct lim; [discriminate|].
+      destruct pr as [items|]; [|discriminate Sh].
+      destruct (agg_shape_spec _ _ Sh) as (Hnd & Hdisj & Hcols).
+      cbn [eval] in Hm. unfold modifiers, modifiers_nolimit, apply_limit in Hm.
+      set (cols := columns (Sel d (Some items) p gb ob None)) in *.
+      assert (H' : In m (map (restrict cols) (order_rows ob (aggregate (Some items) gb (eval vw active p))))) by (destruct d; auto; apply dedup_incl; auto).
+      apply in_map_iff in H'. destruct H' as (m1 & E & H1). apply in_order_rows in H1. subst m.
+      assert (Ec : cols = map item_var items) by reflexivity.
+      assert (HA : forall x w, lookup (restrict cols m1) x = Some w -> In x (map item_var items)).
+      { intros x w L. rewrite lookup_restrict in L. destruct (mem_var x cols) eqn:Ex; [|discriminate]. rewrite <- Ec. apply mem_var_in. exact Ex. }
+      destruct (aggs_of (Some items)) as [|a0 aggs0] eqn:Ea; [destruct gb as [|v gb'] eqn:Eg|].
+      - (* no aggregate, no key: the projection is empty *)
+        assert (Ei : items = []).
+        { destruct items as [|[x|k x al] r]; [reflexivity | | cbn in Ea; discriminate Ea].
+          unfold agg_shape in Sh. apply andb_true_iff in Sh. destruct Sh as [_ Sh]. cbn in Sh. discriminate Sh. }
+        subst items. cbn [sposs scert map item_var]. repeat split.
+        + intros x w L. rewrite lookup_restrict in L. cbn in L. discriminate.
+        + intros x Hx. cbn in Hx. contradiction.
+        + intros x t Hx L. rewrite lookup_restrict in L. cbn in L. discriminate.
+      - cbn [sposs scert]. rewrite Ea. repeat split; [exact HA | intros x [] |].
+        intros x t Hx L. rewrite lookup_restrict in L. destruct (mem_var x cols) eqn:Ex; [|discriminate]. apply mem_var_in in Ex.
+        rewrite aggregate_unfold in H1 by (right; discriminate). rewrite Ea in H1.
+        assert (A : adj (v :: gb') (groups_of (v :: gb') (eval vw active p)) = groups_of (v :: gb') (eval vw active p))
+          by (unfold adj; destruct (groups_of (v :: gb') (eval vw active p)); reflexivity).
+        rewrite A in H1. apply in_map_iff in H1. destruct H1 as ([k ms] & E1 & Hg). subst m1.
+        destruct (group_head _ _ _ _ Hg) as (m0 & r & -> & I0 & K). unfold srow in L. cbn [fold_left fst] in L.
+        assert (Gx : In x (v :: gb')).
+        { destruct (Hcols x Ex) as [G|G]; [exact G | contradiction]. }
+        subst k. rewrite lookup_key_row in L by exact Gx.
+        destruct (IHp _ FRw IB active m0 I0) as (_ & _ & C). eapply C; eauto.
+      - cbn [sposs scert]. rewrite Ea. repeat split; [exact HA | (destruct gb; intros x []) |].
+        intros x t Hx L. rewrite lookup_restrict in L. destruct (mem_var x cols) eqn:Ex; [|discriminate]. apply mem_var_in in Ex.
+        rewrite aggregate_unfold in H1 by (left; rewrite Ea; discriminate). rewrite Ea in H1.
+        apply in_map_iff in H1. destruct H1 as ([k ms] & E1 & Hg). subst m1.
+        assert (NA : forall a, In a (a0 :: aggs0) -> alias_of a <> x).
+        { intros [[kk y] al] Ha E. cbn in E. subst al. rewrite <- Ea in Ha. cbn [aggs_of] in Ha. apply in_flat_map in Ha.
+          destruct Ha as (i & Hi & Hin). rewrite forallb_forall in IBa. specialize (IBa i Hi).
+          destruct i as [z|k2 z al2]; [contradiction|]. destruct Hin as [Hin|[]]. inversion Hin; subst.
+          apply negb_true_iff in IBa. apply (proj2 (mem_var_in x X)) in Hx. congruence. }
+        assert (Gx : In x gb).
+        { destruct (Hcols x Ex) as [G|G]; [exact G|]. apply in_map_iff in G. destruct G as (a & Ea' & Ha). exfalso. eapply NA; eauto. }
+        unfold srow in L. cbn [fst snd] in L. rewrite fold_s_other in L by exact NA.
+        assert (Hg' : In (k, ms) (groups_of gb (eval vw active p))).
+        { unfold adj in Hg. destruct (groups_of gb (eval vw active p)); [destruct gb; [contradiction Gx | contradiction] | exact Hg]. }
+        destruct (group_head _ _ _ _ Hg') as (m0 & r & -> & I0 & K). subst k. rewrite lookup_key_row in L by exact Gx.
+        destruct (IHp _ FRw IB active m0 I0) as (_ & _ & C). eapply C; eauto. }
+    clear Fs. rename Fs1 into Fs.
     unfold simple_sel in Fs. destruct pr as [items|]; (destruct gb; [|discriminate]); (destruct lim; [discriminate|]).
     2: { (* SELECT star *)
       cbn [eval] in Hm. unfold modifiers, modifiers_nolimit, apply_limit, aggregate in Hm. cbn [aggs_of columns] in Hm.
@@ -308,8 +357,10 @@ Proof.
       - subst m0. cbn [sposs scert]. apply (IHp _ FRw IB active m H0).
       - eapply all_wf_in; [apply eval_wf | exact H0].
       - intros x t L. apply sposs_star_cols. right. eapply eval_poss; eauto. }
+    assert (Ea : aggs_of (Some items) = []).
+    { cbn [aggs_of]. clear - Fs. induction items as [|[x|k x al] r IH]; cbn in *; auto; discriminate. }
     cbn [eval] in Hm. destruct (simple_modifiers_in _ _ _ _ _ _ Fs Hm) as (m0 & H0 & E). subst m.
-    destruct (IHp _ FRw IB active m0 H0) as (A & B & C). cbn [sposs scert]. repeat split.
+    destruct (IHp _ FRw IB active m0 H0) as (A & B & C). cbn [sposs scert]. rewrite Ea. repeat split.
     + intros x w L. rewrite lookup_restrict in L. destruct (mem_var x (map item_var items)) eqn:Ex; [|discriminate]. apply mem_var_in. exact Ex.
     + intros x Hx. apply inter_in in Hx. destruct Hx as [H1 H2]. rewrite lookup_restrict, (proj2 (mem_var_in _ _) H1). apply B. exact H2.
     + intros x t Hx L. rewrite lookup_restrict in L. destruct (mem_var x (map item_var items)); [|discriminate]. eapply C; eauto.
